@@ -26,6 +26,7 @@ class StepHooks(Hooks):
     def __init__(self, fn_body, flag="Continue", init_flag="Continue", solout_present=True, accept="then"):
         self.accept = accept
         self.dense = "then"
+        self.head_assume = {}
         self.forced = {}
         self.flag = flag
         self.init_flag = init_flag
@@ -57,11 +58,13 @@ class StepHooks(Hooks):
     LISTS = ("stages", "solout_calls", "interp_calls", "divs")
 
     def snapshot(self):
-        return {k: len(getattr(self, k)) for k in self.LISTS}
+        return ({k: list(getattr(self, k)) for k in self.LISTS}, self.in_main)
 
     def restore(self, snap):
-        for k, n in snap.items():
-            del getattr(self, k)[n:]
+        lists, in_main = snap
+        for k, v in lists.items():
+            setattr(self, k, list(v))
+        self.in_main = in_main
 
     # ---- selectors
     def select_if(self, sx, node, cond):
@@ -155,49 +158,64 @@ class StepHooks(Hooks):
     # ---- main loop
     def loop_head(self, sx, node, roots):
         self.loop_depth += 1
-        if self.main_loop is not None or node.get("k") != "Loop":
+        return None
+
+    def head_override(self, sx, node, roots):
+        if node.get("k") != "Loop":
             return None
-        self.main_loop = node
+        if self.main_loop is None:
+            self.main_loop = node
+            self.pre_state = dict(sx.st)
+            self.pre_roots = set(roots)
+            self.stages_pre = list(self.stages)
+            # identify the state buffer and the time variable from the callback sites in the loop body
+            ysite = xsite = None
+            for c in tast.calls(node, SOLOUT):
+                a = c["args"]
+                if a[2].get("k") == "AddrOf" and a[2]["e"].get("k") == "Path":
+                    ysite = a[2]["e"]["id"]
+                if a[1].get("k") == "AddrOf" and a[1]["e"].get("k") == "Path":
+                    xsite = a[1]["e"]["id"]
+            self.ykey, self.xkey = ysite, xsite
+            if ysite is None or xsite is None:
+                raise AnalysisError("no SolOut::solout call with `&mut x, &mut y` in the main loop of %s" % sx.fn_def)
+            pre_y = self.pre_state.get(ysite)
+            pre_x = self.pre_state.get(xsite)
+            # derivative slots: buffers holding f(x, y) at loop entry
+            slots = []
+            for k, v in self.pre_state.items():
+                if isinstance(v, Buf) and len(v.blocks) == 1 and 0 in v.blocks and isinstance(v.blocks[0], Poly):
+                    a = v.blocks[0].single_atom()
+                    if a:
+                        for s in self.stages_pre:
+                            if s["name"] == a and isinstance(pre_y, Buf) and s["arg"] == pre_y.get(0) and s["T"] == pre_x:
+                                slots.append(k)
+            self.slots = slots
+            self.pre_slot_ok = bool(slots)
+        if node is not self.main_loop:
+            return None
         self.in_main = True
-        self.pre_state = dict(sx.st)
-        self.pre_roots = set(roots)
-        # identify the state buffer and the time variable from the callback sites in the loop body
-        ysite = xsite = None
-        for c in tast.calls(node, SOLOUT):
-            a = c["args"]
-            if a[2].get("k") == "AddrOf" and a[2]["e"].get("k") == "Path":
-                ysite = a[2]["e"]["id"]
-            if a[1].get("k") == "AddrOf" and a[1]["e"].get("k") == "Path":
-                xsite = a[1]["e"]["id"]
-        self.ykey, self.xkey = ysite, xsite
-        if ysite is None or xsite is None:
-            raise AnalysisError("no SolOut::solout call with `&mut x, &mut y` in the main loop of %s" % sx.fn_def)
-        pre_y = sx.st.get(ysite)
-        pre_x = sx.st.get(xsite)
-        # derivative slots: buffers holding f(x, y) at loop entry
-        slots = []
-        for k, v in sx.st.items():
-            if isinstance(v, Buf) and len(v.blocks) == 1 and 0 in v.blocks:
-                a = v.blocks[0].single_atom()
-                if a:
-                    for s in self.stages:
-                        if s["name"] == a and isinstance(pre_y, Buf) and s["arg"] == pre_y.get(0) and s["T"] == pre_x:
-                            slots.append(k)
-        self.slots = slots
-        self.pre_slot_ok = bool(slots)
-        # havoc everything written in the loop, then install the generic head
-        sx.havoc_roots(roots, "head")
-        yb = sx.st.get(ysite)
-        sx.st[ysite] = Buf("Y", {0: Poly.atom("Y")}, yb.len if isinstance(yb, Buf) else None)
-        sx.st[xsite] = Poly.atom("X")
+        # every vector buffer written in the loop is generic garbage at the head (only the state and the
+        # derivative slot carry an invariant); scalars are generalised by the interpreter's widening
+        for r in roots:
+            v = sx.st.get(r)
+            if isinstance(v, Buf) and r != self.ykey and r not in self.slots:
+                sx.havoc_key(r, "head")
+        yb = sx.st.get(self.ykey)
+        sx.st[self.ykey] = Buf("Y", {0: Poly.atom("Y")}, yb.len if isinstance(yb, Buf) else None)
+        sx.st[self.xkey] = Poly.atom("X")
         f0 = dict(name="F0", T=Poly.atom("X"), arg=Poly.atom("Y"), node=None, cond_depth=0, in_main=True, out=None, head=True)
-        self.stages_pre = list(self.stages)
         self.stages = [f0]
-        for k in slots:
+        for k in self.slots:
             b = sx.st.get(k)
             sx.st[k] = Buf(b.name if isinstance(b, Buf) else "slot", {0: Poly.atom("F0")}, b.len if isinstance(b, Buf) else None)
+        fixed = {self.ykey, self.xkey} | set(self.slots)
+        fixed |= {r for r in roots if isinstance(sx.st.get(r), Buf)}
+        for k, v in self.head_assume.items():
+            sx.st[k] = v
+            fixed.add(k)
         self.head = dict(sx.st)
-        return True
+        return fixed
 
     def loop_latch(self, sx, node, latch, breaks):
         self.loop_depth -= 1
@@ -207,11 +225,13 @@ class StepHooks(Hooks):
             self.breaks = breaks
 
 
-def analyse_solve(facts, fn_def, flag="Continue", init_flag="Continue", solout_present=True, accept="then", forced=None, dense="then"):
+def analyse_solve(facts, fn_def, flag="Continue", init_flag="Continue", solout_present=True, accept="then", forced=None, dense="then",
+                  head_assume=None):
     body = facts.body(fn_def)
     hk = StepHooks(body["body"], flag, init_flag, solout_present, accept)
     hk.forced = dict(forced or {})
     hk.dense = dense
+    hk.head_assume = dict(head_assume or {})
     sx = SymExec(facts, fn_def, hk)
     sx.bind_params()
     # log every float division inside component loops (tolerance-scaled vectors)
@@ -229,16 +249,64 @@ def analyse_solve(facts, fn_def, flag="Continue", init_flag="Continue", solout_p
     return sx, hk
 
 
-def analyse_variants(facts, fn_def, max_split=4, **kw):
-    """Path variants: `if`s inside the main loop whose join would merge >= 2 scalars (losing
-    relations such as x_new = x + h) are split instead of joined. Returns list of (tag, sx, hk)."""
+def interest_keys(body):
+    """locals whose merge at a join loses relations that matter for landing/segment reasoning:
+    everything the stage abscissae depend on, plus boolean flags"""
+    tv = set()
+    for c in tast.calls(body["body"], ODE):
+        if c.get("k") == "MethodCall" and c["args"]:
+            for p in tast.find(c["args"][0], lambda z: z.get("k") == "Path" and z.get("res") == "local"):
+                tv.add(p["id"])
+    for c in tast.calls(body["body"], SOLOUT):
+        for a in c["args"][:2]:
+            for p in tast.find(a, lambda z: z.get("k") == "Path" and z.get("res") == "local"):
+                tv.add(p["id"])
+    changed = True
+    while changed:
+        changed = False
+        for n in tast.find(body["body"], lambda z: (z.get("k") == "Let" and z["pat"].get("k") == "PBind" and z["pat"].get("id") in tv and z.get("init") is not None)
+                           or (z.get("k") in ("Assign", "AssignOp") and z["l"].get("k") == "Path" and z["l"].get("id") in tv)):
+            src = n.get("init") if n["k"] == "Let" else n["r"]
+            # only through affine-looking right-hand sides (copies, sums, products of locals/literals)
+            if tast.contains(src, lambda z: z.get("k") in ("MethodCall", "Call", "If", "Match", "Block", "Index") or (z.get("k") == "Binary" and z["op"] not in ("Add", "Sub", "Mul"))):
+                continue
+            for p in tast.find(src, lambda z: z.get("k") == "Path" and z.get("res") == "local" and z.get("ty") in ("f64", "f32")):
+                if p["id"] not in tv:
+                    tv.add(p["id"])
+                    changed = True
+    for l in tast.find(body["body"], lambda z: z.get("k") == "Let" and z["pat"].get("k") == "PBind" and z["pat"].get("ty") == "bool"):
+        tv.add(l["pat"]["id"])
+    return tv
+
+
+_VCACHE = {}
+
+
+def analyse_variants(facts, fn_def, max_split=5, **kw):
+    ck = (id(facts), fn_def, max_split, repr(sorted((k, repr(v)) for k, v in kw.items())))
+    if ck not in _VCACHE:
+        _VCACHE[ck] = _analyse_variants(facts, fn_def, max_split, **kw)
+    return _VCACHE[ck]
+
+
+def _analyse_variants(facts, fn_def, max_split=5, **kw):
+    """Path variants: `if`s inside the main loop whose join would merge >= 2 scalars, at least one of
+    which the stage abscissae / callback times depend on (or a boolean flag), are split instead of
+    joined, so relations such as x_new = x + h or last => h = xend - x survive. Returns [(tag, sx, hk)]."""
     sx, hk = analyse_solve(facts, fn_def, **kw)
-    cands = []
+    interest = interest_keys(facts.body(fn_def))
+    scored = []
     for ev in sx.trace:
-        if ev["kind"] == "multijoin" and hk.main_loop is not None and tast.contains(hk.main_loop, lambda x: x is ev["node"]):
-            if not any(c is ev["node"] for c in cands):
-                cands.append(ev["node"])
-    cands = cands[:max_split]
+        if ev["kind"] == "joinphi" and hk.main_loop is not None and tast.contains(hk.main_loop, lambda x: x is ev["node"]):
+            c = ev["node"]["cond"]
+            tested = {p["id"] for p in tast.find(c, lambda z: z.get("k") == "Path" and z.get("res") == "local" and z.get("ty") == "bool")}
+            polys = [k for k, v in ev["created"].items() if isinstance(v, Poly) and k not in tested]
+            hit = [k for k in polys if k in interest]
+            if len(polys) >= 2 and hit:
+                if not any(c2 is ev["node"] for _, c2 in scored):
+                    scored.append((len(hit), ev["node"]))
+    scored.sort(key=lambda t: -t[0])
+    cands = [n for _, n in scored[:max_split]]
     if not cands:
         return [("join", sx, hk)]
     out = []
